@@ -23,6 +23,14 @@ function genInput (rng, url) {
   for (let i = 0, n = rng.int(6); i < n; i++) L.push(`  acc += a.slice(${i}) + ${JSON.stringify('line ' + i + ' # sourceMappingURL=' + u())};`)
   L.push('  return acc;')
   L.push('}')
+  // ordinary comments and look-alikes at statement level (the original map is generated per line afterwards, so lines may be inserted freely)
+  const extra = ['// plain line comment', '/* plain block comment */', '/** @param {string} a # sourceMappingURL=doc.map */', '// sourceMappingURL=nohash.map', '//@ sourceMappingURL=legacy.map', `//# sourceMappingURL=${u()} `, '/*#sourceMappingURL=nospace.map*/', '// #  sourceMappingURL=two-spaces.map', '//# sourcemappingurl=lowercase.map', '/* multi\n line # sourceMappingURL=inner.map\n*/']
+  for (let i = 0, n = rng.int(5); i < n; i++) {
+    const at = rng.pick([0, 1, 4, 5, L.length - 2, L.length - 1, L.length])
+    const cmt = rng.pick(extra)
+    if (rng.bool(0.5) || at === 0 || at >= L.length) L.splice(Math.min(at, L.length), 0, cmt)
+    else if (!L[at].includes('//')) L[at] = L[at] + ' ' + cmt
+  }
   return L
 }
 
@@ -102,6 +110,21 @@ function tokenStream (code) {
   return out
 }
 
+function commentsOf (code) {
+  const out = []
+  try { acorn.parse(code, { ecmaVersion: 'latest', sourceType: 'script', allowReturnOutsideFunction: true, onComment: (block, text, start, end) => out.push({ key: (block ? '/*' : '//') + text, text, end }) }) } catch (e) { return null }
+  return out
+}
+
+// defuse / re-arm reference-like comments in place (same length)
+const defuseText = x => x.replace(/sourceMappingURL=/g, 'sourceMappingURl=')
+const refuse = x => x.replace(/sourceMappingURl=/g, 'sourceMappingURL=')
+function defused (code) {
+  let out = ''; let at = 0
+  try { acorn.parse(code, { ecmaVersion: 'latest', sourceType: 'script', allowReturnOutsideFunction: true, onComment: (block, text, start, end) => { out += code.slice(at, start) + defuseText(code.slice(start, end)); at = end } }) } catch (e) { return null }
+  return out + code.slice(at)
+}
+
 function applyRoot (map, idx) {
   const s = map.sources[idx]
   const outs = new Set([s])
@@ -113,7 +136,7 @@ function applyRoot (map, idx) {
   return outs
 }
 
-function check (c, resp) {
+function check (c, resp, baseline) {
   const violations = []
   const k = kind(resp)
   const out = { k }
@@ -185,15 +208,34 @@ function check (c, resp) {
     // oversized but well-formed map / comment followed by code: chained or plain are both acceptable; must not fail
     out.either = true
   }
-  // the superseded comment is removed when comments are kept
-  if (c.meta.comments && c.meta.refKind !== 'none' && c.meta.refKind !== 'comment-not-last') {
-    const last = c.meta.url
-    const codePart = t.code
-    // collect comments of the output
-    const comments = []
-    try { acorn.parse(codePart, { ecmaVersion: 'latest', sourceType: 'script', allowReturnOutsideFunction: true, onComment: (block, text) => comments.push(text) }) } catch (e) { push('output-unparsable', 'output with comments does not parse: ' + e.message) }
-    const still = comments.filter(x => x.trim() === '# sourceMappingURL=' + last)
-    if (still.length) push('superseded-comment-kept', `the original comment \`# sourceMappingURL=${clip(last, 60)}\` is still present in the output`)
+  // Comment handling when comments are kept. Oracle = the same call on a baseline input in which every comment that could be read
+  // as a reference is defused in place (same length, so every position, span and printer decision is identical): whatever the
+  // printer does to comments (it drops or relocates some around injected code) it does to both, so the two outputs must carry the
+  // same comments except for the one superseded reference. A comment counts as a possible reference under the lenient reading
+  // the rewriter itself uses (trimmed text starts with `# sourceMappingURL=`); when the last of them is also the last thing in
+  // the file it is the only one that may go, otherwise (reference followed by code, or look-alikes only) the statement is
+  // silent and any single candidate may go.
+  if (c.meta.comments && baseline) {
+    const inC = commentsOf(c.code); const outC = commentsOf(t.code)
+    const bt = kind(baseline) === 'ok-modified' ? S.splitTrailer(baseline.ok.content) : null
+    const baseC = bt && !bt.error ? commentsOf(bt.code) : null
+    if (inC && outC && baseC) {
+      const isRef = x => x.text.trim().startsWith('# sourceMappingURL=')
+      const cands = inC.filter(isRef)
+      const lastCand = cands.length ? cands[cands.length - 1] : null
+      const clearCut = lastCand && c.code.slice(lastCand.end).trim() === ''
+      const bag = new Map()
+      for (const x of outC) bag.set(x.key, (bag.get(x.key) || 0) + 1)
+      const missing = []
+      for (const x of baseC) { const k = refuse(x.key); if (bag.get(k)) bag.set(k, bag.get(k) - 1); else missing.push(k) }
+      const extra = [...bag].filter(([, n]) => n > 0).map(([k]) => k)
+      if (extra.length) push('comment-added', `comments are kept: the output has a comment ${JSON.stringify(clip(extra[0], 80))} that the same input with defused reference comments does not produce`)
+      const candKeys = new Set(cands.map(x => x.key))
+      const bad = missing.filter(k => clearCut ? k !== lastCand.key : !candKeys.has(k))
+      if (bad.length || missing.length > 1) push('comment-lost', `comments are kept, but the input comment ${JSON.stringify(clip(bad[0] || missing[1], 80))} is missing from the output although it is not the superseded reference (the printer keeps it when the reference comments are defused)`)
+      if (cands.length && (clearCut || c.meta.refKind !== 'comment-not-last') && missing.length === 0 && baseC.some(x => refuse(x.key) === (lastCand && lastCand.key))) push('superseded-comment-kept', `the original comment \`${clip(lastCand.key, 60)}\` is still present in the output`)
+      out.commentsCompared = baseC.length
+    }
   }
   out.tokens = tokenStream(t.code)
   return { out, violations }
@@ -202,8 +244,8 @@ function check (c, resp) {
 module.exports = {
   id: 'C10',
   level: 'fault_enumeration',
-  rule: 'every reference kind (inline data URL, relative, absolute, none, missing, permission denied, directory, mid-read failure, invalid base64 / JSON / VLQ, index map, empty file, 3 MB generated map, two comments, block comment, comment not last) x {chain on/off} x {comments on/off} is enumerated per shard against programs whose strings, regexes, templates and other comments look like the sourceMappingURL comment, with random original maps (1-3 sources, names, sourceRoot, sparse lines, tokens without source). Monitors: emitted map == composition of the plain rewrite map (returned by the same call) with the original map, token by token, under both lookup semantics; plain rewrite map when there is no usable map or chaining is off; exactly one decodable trailer as last line; superseded comment removed when comments are kept; acorn token stream (strings/regexes by value) identical across the four chain/comments settings of the same input. distinct_nontrivial = distinct cases whose emitted map was decided.',
-  assumptions: ['an oversized but well-formed map may or may not be chained (both accepted), it must not fail', 'a sourceMappingURL comment that is followed by more code may or may not be honoured (statement silent); text safety and the single trailer are still required', 'sourceRoot may be applied by joining with or without a slash'],
+  rule: 'every reference kind (inline data URL, relative, absolute, none, missing, permission denied, directory, mid-read failure, invalid base64 / JSON / VLQ, index map, empty file, 3 MB generated map, two comments, block comment, comment not last) x {chain on/off} x {comments on/off} is enumerated per shard against programs whose strings, regexes, templates and other comments look like the sourceMappingURL comment, with random original maps (1-3 sources, names, sourceRoot, sparse lines, tokens without source). Monitors: emitted map == composition of the plain rewrite map (returned by the same call) with the original map, token by token, under both lookup semantics; plain rewrite map when there is no usable map or chaining is off; exactly one decodable trailer as last line; superseded comment removed and every other comment kept when comments are on (differential: the same call on a baseline input whose reference-like comments are defused in place must print the same comments except the one superseded reference); acorn token stream (strings/regexes by value) identical across the four chain/comments settings of the same input. distinct_nontrivial = distinct cases whose emitted map was decided.',
+  assumptions: ['comments that the printer itself drops or relocates around injected code (it does so with and without a reference comment) are not attributed to this property', 'an oversized but well-formed map may or may not be chained (both accepted), it must not fail', 'a sourceMappingURL comment that is followed by more code may or may not be honoured (statement silent); text safety and the single trailer are still required', 'sourceRoot may be applied by joining with or without a slash'],
   plan (ctx) {
     const rounds = ctx.tier === 'thorough' ? 400 : 48
     const shards = []
@@ -222,12 +264,17 @@ module.exports = {
       for (const chain of [true, false]) for (const comments of [true, false]) cases.push(genCase(new Rng(ctx.seed, 'c10case', spec.round, refKind), refKind, chain, comments))
       void base
     }
-    const { responses } = rewriteJobs(cases)
+    const baseJobs = []
+    cases.forEach((c, i) => { if (c.meta.comments) { const d = defused(c.code); if (d !== null) baseJobs.push({ i, job: Object.assign({}, c, { code: d }) }) } })
+    const { responses: all } = rewriteJobs(cases.concat(baseJobs.map(b => b.job)))
+    const responses = all.slice(0, cases.length)
+    const baselines = new Map(baseJobs.map((b, k) => [b.i, all[cases.length + k]]))
     const rep = { evaluations: 0, distinct: [], violations: [], inconclusive: [], samples: [], counters: {}, sets: { reference_kinds: [] } }
     const bump = (k, n = 1) => { rep.counters[k] = (rep.counters[k] || 0) + n }
     const outs = []
     cases.forEach((c, i) => {
-      const { out, violations } = check(c, responses[i])
+      const { out, violations } = check(c, responses[i], baselines.get(i))
+      if (out.commentsCompared) bump('comments_compared_with_defused_baseline', out.commentsCompared)
       outs.push(out)
       bump('status:' + out.k)
       if (['timeout', 'harness'].includes(out.k)) { rep.inconclusive.push({ reason: 'harness-' + out.k, detail: c.meta.refKind }); return }
@@ -256,8 +303,9 @@ module.exports = {
   },
   async replay (w) {
     const c = { code: w.code, file: w.file, reader: w.reader, config: w.config, meta: w.meta, cfgKey: 'replay' }
-    const { responses } = rewriteJobs([c])
-    const r = check(c, responses[0])
+    const d = c.meta.comments ? defused(c.code) : null
+    const { responses } = rewriteJobs(d !== null ? [c, Object.assign({}, c, { code: d })] : [c])
+    const r = check(c, responses[0], responses[1])
     const violations = r.violations
     if (w.other) {
       const { responses: r2 } = rewriteJobs([Object.assign({}, c, { config: w.other, cfgKey: 'other' })])
